@@ -344,7 +344,10 @@ func runC29(c *vh.Ctx, concurrent bool) {
 			if checkFirst && wb >= 0 && len(tr) > 0 && tr[0] != wb {
 				c.Fail("working-first", "Dial did not start with the most recently working id", map[string]any{"ids": ids, "working": wb}, tr, wb)
 			}
-			if connected >= 0 && (len(tr) == 0 || tr[len(tr)-1] != connected || !okOf[connected] || wa != connected) {
+			// "records that ID as working": with a single caller the recorded id must be the connected one; with concurrent
+			// Dials on one Roller another call may legitimately have recorded its own id in between, so only the
+			// sequential runs compare the field (the concurrent runs check it is some id of the pool, below).
+			if connected >= 0 && (len(tr) == 0 || tr[len(tr)-1] != connected || !okOf[connected] || (!concurrent && wa != connected) || (concurrent && wa < 0)) {
 				c.Fail("result", "returned connection is not the first accepted attempt, or was not recorded as working", map[string]any{"ids": ids, "working": wb, "accept": accepted}, map[string]any{"trace": tr, "connected": connected, "after": wa}, "")
 			}
 			if connected < 0 && !tcpErr {
